@@ -64,7 +64,7 @@ RefusalCases ==
 RECURSIVE SetToSortedSeq(_)
 SetToSortedSeq(S) == IF S = {} THEN <<>> ELSE LET m == SetMax(S) IN SetToSortedSeq(S \ {m}) \o <<m>>
 KuCases == { Case("csr-ku", Params(SetToSortedSeq(S), <<>>, <<>>, <<>>, DnOne, NoUnsup), <<>>, "ed25519") : S \in SUBSET (0..8) }
-Algs == {"ed25519", "ecdsa-p256-sha256", "ecdsa-p384-sha384", "rsa-sha256", "rsa-sha384", "rsa-sha512"}
+Algs == {"ed25519", "ecdsa-p256-sha256", "ecdsa-p384-sha384", "ecdsa-p521-sha512", "rsa-sha256", "rsa-sha384", "rsa-sha512"}
 AlgCases == { Case("csr-alg", Params(<<0>>, SanSome, <<"1.3.6.1.5.5.7.3.1">>, <<>>, dn, NoUnsup), at, alg) :
                 alg \in Algs, dn \in {DnOne, DnMulti}, at \in {<<>>, <<A2, A1>>} }
 Cases == PresenceCases \cup RefusalCases \cup KuCases \cup AlgCases
